@@ -50,7 +50,7 @@ SELECT_BUILDERS = {
 WRAP_BUILDERS = ["and_", "or_", "not_", "as_", "subquery", "isin", "between", "like", "eq", "neq", "is_", "desc", "asc", "with_", "union", "limit_q"]
 NM_FUNCS = ["sql_all", "sql_all", "update_fn", "insert_fn", "column_fn", "placeholders_expr", "sql", "sql", "sql", "optimize", "qualify_copy", "annotate_copy", "diff", "diff", "lineage", "expand", "replace_tables", "replace_placeholders",
             "maybe_parse_copy", "binop", "dump", "alias_", "subquery_fn", "not_fn", "and_fn", "cast_fn", "find_tables", "to_s", "union_fn", "copy_eq", "plan",
-            "refl", "refl", "refl_fn", "refl_fn", "sql_nodes"]
+            "refl", "refl", "refl_fn", "refl_fn", "sql_nodes", "sql_nodes"]
 # arguments for the reflective builder op: every public method of the target's class that has a `copy` parameter is a candidate
 REFL_ARGS = {"select": ["nn"], "where": ["zz > 1"], "having": ["COUNT(*) > 1"], "qualify": ["rn = 1"], "on": ["zz = 1"], "from_": ["ft"], "join": ["jt"],
              "group_by": ["gg"], "order_by": ["oo DESC"], "sort_by": ["sb"], "cluster_by": ["cb"], "limit": [7], "offset": [2], "with_": ["al", "SELECT 1 AS a"],
@@ -179,7 +179,7 @@ def _gen_parse(rng, cfg):
         # the grammar only uses portable SQL: sometimes the query is read (and later qualified / optimized) in a dialect with
         # its own identifier rules
         return {"k": "parse", "sql": corpus.gen_schema_query(rng), "dialect": rng.choice([None, None, None, "bigquery", "snowflake", "duckdb", "postgres", "tsql", "mysql", "spark", "oracle", "clickhouse"])}
-    if ext and src < 0.45:
+    if ext and src < (0.45 if cfg["mode"] == "C08" else 0.7):
         if rng.random() < 0.5:
             strata = corpus.extracted_strata()
             st_ = strata[rng.randrange(len(strata))]
@@ -221,7 +221,7 @@ def generate(prop, run_seed, tier):
         "faults": faults,
         "fault_rate": rng.choice([0.03, 0.08, 0.15]) if faulted else 0.0,
         "weights": weights,
-        "use_extracted": rng.random() < 0.5,
+        "use_extracted": rng.random() < (0.5 if mode == "C08" else 0.8),  # C09 is quantified over target dialects x statement kinds: the test corpus is where the rare kinds are
         "rule_ok": "failing_rule" in faults or rng.random() < 0.5,
         "hot_dialects": rng.sample(SQL_DIALECTS, 3),
     }
@@ -1159,7 +1159,7 @@ def _apply_nm(world, op, st, res, target):
                 # generation started at EVERY node of the tree (a sub-expression printed on its own is ordinary use: logging,
                 # error messages, building new statements from pieces), for the run's hot dialects and a few others
                 acc = []
-                dls = [dd for i_, dd in enumerate(SQL_DIALECTS) if (i_ + op["m"]) % 6 == 0]
+                dls = [dd for i_, dd in enumerate(SQL_DIALECTS) if (i_ + op["m"]) % 4 == 0]
                 for x in nodes[:80]:
                     for dd in dls:
                         try:
